@@ -21,6 +21,8 @@ def run_all(run, section, scns, tie=True, strict=True):
             continue
         out.append((scn, res))
         for st, o in zip(scn['steps'], res['steps']):
+            if st.get('cmd') == 'fs':
+                continue
             if o.get('harness_error'):
                 run.fail('harness', 'sandbox step failure', {'error': o.get('harness_error'), 'scenario': scn})
             items.append((scn, st, o))
